@@ -9,27 +9,29 @@ import (
 )
 
 
-func writeReplay(prog *Program, e *Engine, o checkOpts, ob *Oblig, dir string) (string, bool) {
+func writeReplay(prog *Program, res *FuncResult, o checkOpts, ob *Oblig, dir string) (string, bool) {
 	_ = os.MkdirAll(dir, 0o755)
 	name := sanitize(ob.name)
 	if len(name) > 150 {
 		name = name[:150]
 	}
 	path := filepath.Join(dir, name+".json")
+	rp := tryReplay(prog, res, ob, o.repo, o.overlay)
 	rec := map[string]interface{}{
-		"property":   o.property,
-		"obligation": ob.name,
-		"kind":       ob.kind,
-		"at":         ob.pos,
-		"status":     ob.status,
-		"solver":     ob.solver,
+		"property":      o.property,
+		"obligation":    ob.name,
+		"kind":          ob.kind,
+		"at":            ob.pos,
+		"status":        ob.status,
+		"solver":        ob.solver,
 		"solver_output": ob.output,
-		"model":      ob.model,
-		"reproduced": false,
+		"model":         truncate(ob.model, 20000),
+		"replay":        rp,
+		"reproduced":    rp.Reproduced,
 	}
 	b, _ := json.MarshalIndent(rec, "", " ")
 	_ = os.WriteFile(path, append(b, '\n'), 0o644)
-	return path, false
+	return path, rp.Reproduced
 }
 
 func cmdReplay(args []string) int {
